@@ -27,6 +27,7 @@ from symex import SOLVER_STATS
 import workerloop  # noqa: E402
 import blockloop  # noqa: E402
 import spawnflow  # noqa: E402
+import runtimeloop  # noqa: E402
 import replay as rp  # noqa: E402
 import validate as tv  # noqa: E402
 
@@ -140,6 +141,72 @@ def depth_obligations(pid, mir_text, info, add, violations, inconclusive):
                 inconclusive.append(o["obligation"] + ": " + o["result"])
 
 
+def run_c17_part(d, mir_text, t_mir, tier, seed, known, t0):
+    """C17, runtime-loop clause (the Kani harnesses of C17 are run by lib/runner.py, which merges this
+    part into evidence/C17.json): writes $VERIF_PART_OUT and prints VIOLATION / INCONCLUSIVE lines."""
+    pid = "C17"
+    obligations, violations, inconclusive, confirmed = [], [], [], []
+    info = {}
+    try:
+        res, info = runtimeloop.obligations(mir_text)
+        info["mir_sha256"] = hashlib.sha256((runtimeloop.find_runtime_closure(mir_text) or "").encode()).hexdigest()[:12]
+        seen = set()
+        for o in res:
+            obligations.append(o)
+            kind = o["obligation"].split(": ", 2)[-1]
+            if o["result"] == "sat":
+                if kind not in seen:
+                    seen.add(kind)
+                    violations.append({"property": pid, "obligation": o["obligation"], "static": True, "witness": o.get("witness")})
+            elif o["result"] != "unsat":
+                inconclusive.append(o["obligation"] + ": " + o["result"])
+    except Unsupported as e:
+        inconclusive.append("encoder: " + str(e))
+    except Exception:  # noqa: BLE001
+        import traceback
+        inconclusive.append("internal error: " + traceback.format_exc()[-1200:])
+    try:
+        for v in violations:
+            rdir = os.path.join(os.environ.get("VERIF_REPLAY_DIR", os.path.join(VERIF, "replays")), pid)
+            os.makedirs(rdir, exist_ok=True)
+            path = os.path.join(rdir, "static-" + re.sub(r"\W+", "_", v["obligation"])[:60] + ".json")
+            ok, out = replay_static(d, pid, v)
+            json.dump(v, open(path, "w"), indent=1, default=str)
+            log(f"[C17] replay of `{v['obligation'][:70]}`: {'reproduced' if ok else ('NOT reproduced' if ok is False else 'inconclusive')}")
+            if ok:
+                confirmed.append((v, path))
+            else:
+                inconclusive.append(f"counterexample for `{v['obligation']}` did not reproduce natively ({'ran clean' if ok is False else 'divergence/build problem'}): {out[-400:]}")
+    except Exception:  # noqa: BLE001
+        import traceback
+        inconclusive.append("native replay failed to run: " + traceback.format_exc()[-800:])
+    finally:
+        shutil.rmtree(d, ignore_errors=True)
+    part = {
+        "engine": "mirsym: lenient symbolic execution of the MIR of actor::spawn::spawn's per-actor thread closure (every callee arbitrary, loops havocked, opaque values with recorded provenance); z3 decides path feasibility",
+        "function": info.get("function"), "mir_sha256": info.get("mir_sha256"), "blocks": info.get("blocks"), "start_up_paths": info.get("start_up_paths"), "round_paths": info.get("round_paths"),
+        "obligations": len(obligations), "discharged": sum(1 for o in obligations if o["result"] == "unsat"),
+        "solver_queries": SOLVER_STATS["queries"], "solver_time_s": round(SOLVER_STATS["time"], 2), "mir_dump_s": round(t_mir, 1),
+        "samples": obligations[:40], "inconclusive": inconclusive, "violations": len(confirmed), "wall_s": round(time.time() - t0, 1),
+        "explanation": runtimeloop.__doc__.split("Obligations:")[1].strip(),
+        "outside": ["what the sockets deliver (the OS), which interrupt is the earliest (min_by_key over the pending map), that `set_read_timeout` bounds the wait, serialization in on_command's Send arm (Id -> address is decided by the Kani harnesses), the non-IPv4 and parse-error arms beyond 'no handler is called'"],
+    }
+    out = os.environ.get("VERIF_PART_OUT")
+    if out:
+        json.dump(part, open(out, "w"), indent=1, default=str)
+    for v, path in confirmed:
+        print(f"VIOLATION property={pid} replay={path}")
+        print(f"  failed: {v['obligation']}")
+    if confirmed:
+        return 1
+    if inconclusive:
+        for x in inconclusive:
+            print(f"INCONCLUSIVE property={pid}: {x[:1500]}")
+        return 2
+    log(f"[C17] runtime loop: {part['discharged']}/{part['obligations']} obligations discharged by z3")
+    return 0
+
+
 def run(pid, tier, seed, replay_path=None):
     t0 = time.time()
     # VERIF_SEED only perturbs the solver's search (never the encoding or the bounds)
@@ -154,11 +221,16 @@ def run(pid, tier, seed, replay_path=None):
     try:
         if replay_path:
             cex = json.load(open(replay_path))
-            ok, out = rp.run_replay(os.path.join(d, "pristine"), cex)
+            if cex.get("static"):
+                ok, out = replay_static(d, pid, cex)
+            else:
+                ok, out = rp.run_replay(os.path.join(d, "pristine"), cex)
             print(out)
             print("REPLAY:", "violation reproduced" if ok else ("not reproduced" if ok is False else "inconclusive (model/real divergence or build error)"))
             return 1 if ok else (0 if ok is False else 2)
         mir_text, t_mir = dump_mir(d)
+        if pid == "C17":
+            return run_c17_part(d, mir_text, t_mir, tier, seed, known, t0)
         bm = BrokerModel(mir_text)
         info["functions_encoded"] = [f"job_market::JobBroker::{k} (MIR sha256 {hashlib.sha256(v.encode()).hexdigest()[:12]}, {len(bm.bodies[k].blocks)} basic blocks)" for k, v in sorted(bm.mir_by_name.items())]
         info["mir_dump_s"] = round(t_mir, 1)
@@ -618,6 +690,72 @@ fn verif_worker_leaves_only_for_a_stop_reason() {
 }
 '''
 
+RUNTIME_TEST = r'''
+use stateright::actor::{spawn, Actor, Id, Out};
+use std::borrow::Cow;
+use std::net::{Ipv4Addr, SocketAddrV4, UdpSocket};
+use std::sync::Mutex;
+use std::time::{Duration, Instant};
+
+static LOG: Mutex<Vec<String>> = Mutex::new(Vec::new());
+fn log(s: String) { LOG.lock().unwrap().push(s); }
+
+struct Probe { t0: Instant }
+impl Actor for Probe {
+    type Msg = String;
+    type State = u32;
+    type Timer = u8;
+    type Random = ();
+    fn on_start(&self, id: Id, o: &mut Out<Self>) -> u32 {
+        log(format!("start id={:?}", id));
+        o.set_timer(7, Duration::from_millis(400)..Duration::from_millis(400));
+        100
+    }
+    fn on_msg(&self, id: Id, state: &mut Cow<u32>, src: Id, msg: String, _o: &mut Out<Self>) {
+        log(format!("msg id={:?} state={} src={:?} msg={}", id, **state, src, msg));
+        *state.to_mut() += 1;
+    }
+    fn on_timeout(&self, id: Id, state: &mut Cow<u32>, timer: &u8, _o: &mut Out<Self>) {
+        log(format!("timeout id={:?} state={} timer={} after_ms={}", id, **state, timer, self.t0.elapsed().as_millis()));
+        *state.to_mut() += 10;
+    }
+}
+
+#[test]
+fn verif_udp_runtime_contract() {
+    let port = 41000 + (std::process::id() % 20000) as u16;
+    let addr = SocketAddrV4::new(Ipv4Addr::LOCALHOST, port);
+    let id = Id::from(addr);
+    let t0 = Instant::now();
+    std::thread::spawn(move || {
+        let _ = spawn(|m: &String| serde_json::to_vec(m), |b: &[u8]| serde_json::from_slice::<String>(b), vec![(id, Probe { t0 })]);
+    });
+    std::thread::sleep(Duration::from_millis(150));
+    let client = UdpSocket::bind(SocketAddrV4::new(Ipv4Addr::LOCALHOST, 0)).unwrap();
+    let client_addr = match client.local_addr().unwrap() { std::net::SocketAddr::V4(a) => a, _ => unreachable!() };
+    client.send_to(&serde_json::to_vec(&"hello".to_string()).unwrap(), addr).unwrap();
+    client.send_to(b"\\xff\\xfe not json", addr).unwrap();
+    client.send_to(&serde_json::to_vec(&"again".to_string()).unwrap(), addr).unwrap();
+    std::thread::sleep(Duration::from_millis(900));
+    let log = LOG.lock().unwrap().clone();
+    println!("{:#?}", log);
+    let bad = |what: &str| -> ! { panic!("VIOLATION udp runtime: {} -- log: {:?}", what, log) };
+    if log.first().map(|l| l.starts_with("start ")) != Some(true) || log.iter().filter(|l| l.starts_with("start ")).count() != 1 { bad("on_start must run exactly once, first"); }
+    if !log[0].contains(&format!("id={:?}", id)) { bad("on_start gets the actor's id"); }
+    let msgs: Vec<&String> = log.iter().filter(|l| l.starts_with("msg ")).collect();
+    if msgs.len() != 2 { bad("exactly the two well-formed datagrams reach on_msg"); }
+    let want_src = format!("src={:?}", Id::from(client_addr));
+    if !(msgs[0].contains("msg=hello") && msgs[1].contains("msg=again")) { bad("on_msg carries the deserialized messages in order"); }
+    if !msgs.iter().all(|m| m.contains(&want_src) && m.contains(&format!("id={:?}", id))) { bad("on_msg carries the Id derived from the sender's address and the actor's own id"); }
+    if !(msgs[0].contains("state=100") && msgs[1].contains("state=101")) { bad("each handler receives the state left by the previous one"); }
+    let tos: Vec<&String> = log.iter().filter(|l| l.starts_with("timeout ")).collect();
+    if tos.len() != 1 { bad("the timer set in on_start fires exactly once (it is consumed when it fires)"); }
+    let after: u128 = tos[0].rsplit("after_ms=").next().unwrap().parse().unwrap();
+    if after < 400 { bad("a timer fires no earlier than the lower bound of its range"); }
+    if !tos[0].contains("timer=7") || !tos[0].contains("state=102") { bad("on_timeout gets the timer that was set and the current state"); }
+}
+'''
+
 BFS_ORDER_TEST = r'''
 use stateright::{Checker, Model, Property, StateRecorder};
 use std::collections::{HashMap, VecDeque};
@@ -669,7 +807,7 @@ fn verif_bfs_order_across_block_boundaries() {
     std::thread::spawn(move || { let _ = tx.send(Big.checker().threads(1).visitor(rec).spawn_bfs().join()); });
     let checker = match rx.recv_timeout(std::time::Duration::from_secs(30)) {
         Ok(c) => c,
-        Err(_) => { println!("VIOLATION BFS order: the check of a 1703-state graph did not finish within 30 s"); std::process::exit(1) }
+        Err(_) => panic!("VIOLATION BFS order: the check of a 1703-state graph did not finish within 30 s"),
     };
     let mut last = 0;
     for s in evaluated() {
@@ -695,7 +833,7 @@ fn verif_single_threaded_bfs_order_and_shortest_witnesses() {
     std::thread::spawn(move || { let _ = tx.send(G.checker().threads(1).visitor(rec).spawn_bfs().join()); });
     let checker = match rx.recv_timeout(std::time::Duration::from_secs(20)) {
         Ok(c) => c,
-        Err(_) => { println!("VIOLATION BFS order: the check of a 60-state graph did not finish within 20 s (path reconstruction does not terminate?)"); std::process::exit(1) }
+        Err(_) => panic!("VIOLATION BFS order: the check of a 60-state graph did not finish within 20 s (path reconstruction does not terminate?)"),
     };
     let ev = evaluated();
     let mut last = 0;
@@ -868,6 +1006,8 @@ def replay_static(d, pid, v):
             return _WORKER_REPLAYS[code]
         finally:
             os.remove(tp)
+    if pid == "C17":
+        return _integration_test(d, v, RUNTIME_TEST, "verif_udp_runtime", "VIOLATION udp runtime")
     if " spawn: " in v["obligation"] and pid == "C12":
         if "target_max_depth" in v["obligation"]:
             return _integration_test(d, v, DEPTH_TEST, "verif_depth_limit", "VIOLATION depth limit")
